@@ -19,6 +19,7 @@ import (
 	"github.com/foxcpp/go-mockdns"
 	"github.com/foxcpp/maddy/framework/buffer"
 	"github.com/foxcpp/maddy/framework/config"
+	modconfig "github.com/foxcpp/maddy/framework/config/module"
 	"github.com/foxcpp/maddy/framework/exterrors"
 	"github.com/foxcpp/maddy/framework/log"
 	"github.com/foxcpp/maddy/framework/module"
@@ -161,7 +162,45 @@ func (r *c07Resolver) LookupTXT(ctx context.Context, name string) ([]string, err
 type c07Check struct {
 	name  string
 	res   module.CheckResult
+	stage byte // the stage at which res is reported: c, s, r; anything else: the body stage
 	enter func()
+}
+
+func (c *c07Check) at(stage byte) module.CheckResult {
+	if c.stage == stage {
+		return c.res
+	}
+	return module.CheckResult{}
+}
+
+// c07Reasons: what the stock checks attach to a verdict they do not act on themselves.
+var c07Reasons = []error{
+	&exterrors.SMTPError{Code: 550, EnhancedCode: exterrors.EnhancedCode{5, 7, 23}, Message: "SPF authentication failed", CheckName: "spf", Err: errors.New("matched -all")},
+	errors.New("softfail"),
+	&exterrors.SMTPError{Code: 451, EnhancedCode: exterrors.EnhancedCode{4, 7, 24}, Message: "SPF authentication failed with a temporary error", CheckName: "spf", Err: errors.New("lookup timed out")},
+	&exterrors.SMTPError{Code: 550, EnhancedCode: exterrors.EnhancedCode{5, 7, 20}, Message: "No passing DKIM signatures", CheckName: "dkim"},
+	&exterrors.SMTPError{Code: 550, EnhancedCode: exterrors.EnhancedCode{5, 7, 23}, Message: "No SPF policy", CheckName: "spf"},
+}
+
+// c07Wrapped is the CheckResult by which the check of block k hands over its share of the
+// authentication results (vdmarc.Case.Wraps).
+func c07Wrapped(c *vdmarc.Case, k int, results []authres.Result) (module.CheckResult, byte) {
+	w := c.WrapOf(k)
+	res := module.CheckResult{AuthResult: results}
+	if vdmarc.WrapHas(w, 'i') || vdmarc.WrapHas(w, 'q') {
+		res.Reason = c07Reasons[(k+len(results)+len(c.Res))%len(c07Reasons)]
+	}
+	if vdmarc.WrapHas(w, 'h') {
+		res.Header = textproto.Header{}
+		res.Header.Add("Received-SPF", "fail (example.net: sender is not authorized) client-ip=192.0.2.1; helo=mx.example.net;")
+		if (k+len(results))%2 == 1 {
+			res.Header.Add("X-Check-Verdict", "dmarc=pass header.from=example.com")
+		}
+	}
+	// the action is applied the way the stock checks do it: with the real FailAction.Apply
+	// (action ignore: a reason and no flag; action quarantine: the flag)
+	res = modconfig.FailAction{Quarantine: vdmarc.WrapHas(w, 'q')}.Apply(res)
+	return res, vdmarc.WrapStage(w)
 }
 
 func (c *c07Check) Init(*config.Map) error { return nil }
@@ -170,16 +209,19 @@ func (c *c07Check) InstanceName() string   { return c.name }
 func (c *c07Check) CheckStateForMsg(ctx context.Context, msgMeta *module.MsgMetadata) (module.CheckState, error) {
 	return c, nil
 }
-func (c *c07Check) CheckConnection(ctx context.Context) module.CheckResult { return module.CheckResult{} }
+func (c *c07Check) CheckConnection(ctx context.Context) module.CheckResult { return c.at('c') }
 func (c *c07Check) CheckSender(ctx context.Context, from string) module.CheckResult {
-	return module.CheckResult{}
+	return c.at('s')
 }
 func (c *c07Check) CheckRcpt(ctx context.Context, to string) module.CheckResult {
-	return module.CheckResult{}
+	return c.at('r')
 }
 func (c *c07Check) CheckBody(ctx context.Context, header textproto.Header, body buffer.Buffer) module.CheckResult {
 	if c.enter != nil {
 		c.enter()
+	}
+	if c.stage == 'c' || c.stage == 's' || c.stage == 'r' {
+		return module.CheckResult{}
 	}
 	return c.res
 }
@@ -225,7 +267,8 @@ func c07TimedPipeline(c *vdmarc.Case, tgt *testutils.Target) (*MsgPipeline, *c07
 			return nil, nil, nil, false
 		}
 		k := k
-		chk := &c07Check{name: fmt.Sprintf("block%d", k), res: module.CheckResult{AuthResult: all[pos : pos+n]}}
+		chk := &c07Check{name: fmt.Sprintf("block%d", k)}
+		chk.res, chk.stage = c07Wrapped(c, k, all[pos:pos+n])
 		chk.enter = func() {
 			clock.advance(k + 1)
 			res.settle(k + 1)
@@ -235,6 +278,12 @@ func c07TimedPipeline(c *vdmarc.Case, tgt *testutils.Target) (*MsgPipeline, *c07
 		}
 		pos += n
 		blocks[k] = append(blocks[k], chk)
+		if vdmarc.WrapHas(c.WrapOf(k), 'd') {
+			// the same check object is referenced by the later blocks too
+			for j := k + 1; j < 3; j++ {
+				blocks[j] = append(blocks[j], chk)
+			}
+		}
 	}
 	if pos != len(all) || first < 0 {
 		return nil, nil, nil, false
@@ -297,7 +346,16 @@ func c07Reply(out *vh.Out, c *vdmarc.Case, seedOK bool) {
 		// whatever happens, every answer arrives in the end
 		defer clock.advance(c07Stages - 1)
 	} else {
+		var again []module.Check
 		checks := []module.Check{&testutils.Check{BodyRes: module.CheckResult{AuthResult: c.AuthResults()}}}
+		if c.Wraps != nil {
+			chk := &c07Check{name: "block0"}
+			chk.res, chk.stage = c07Wrapped(c, 0, c.AuthResults())
+			checks = []module.Check{chk}
+			if vdmarc.WrapHas(c.WrapOf(0), 'd') {
+				again = []module.Check{chk}
+			}
+		}
 		if c.PriorQ {
 			checks = append(checks, &testutils.Check{InstName: "flagger", BodyRes: module.CheckResult{Quarantine: true, Reason: errors.New("flagged by an earlier check")}})
 		}
@@ -306,8 +364,9 @@ func c07Reply(out *vh.Out, c *vdmarc.Case, seedOK bool) {
 				globalChecks: checks,
 				perSource:    map[string]sourceBlock{},
 				defaultSource: sourceBlock{
+					checks:      again,
 					perRcpt:     map[string]*rcptBlock{},
-					defaultRcpt: &rcptBlock{targets: []module.DeliveryTarget{&tgt}},
+					defaultRcpt: &rcptBlock{checks: again, targets: []module.DeliveryTarget{&tgt}},
 				},
 				doDMARC: true,
 			},
@@ -359,6 +418,7 @@ func c07Reply(out *vh.Out, c *vdmarc.Case, seedOK bool) {
 	}()
 
 	var obs, got, verdict string
+	recSPF, recDKIM, recParsed := 0, 0, false
 	if bodyErr != nil {
 		var se *exterrors.SMTPError
 		if !errors.As(bodyErr, &se) {
@@ -395,10 +455,16 @@ func c07Reply(out *vh.Out, c *vdmarc.Case, seedOK bool) {
 		if f := m.Header.Get("Authentication-Results"); f != "" {
 			if _, rs, err := authres.Parse(f); err == nil {
 				for _, r := range rs {
-					if dr, ok := r.(*authres.DMARCResult); ok {
+					switch dr := r.(type) {
+					case *authres.DMARCResult:
 						verdict = string(dr.Value)
+					case *authres.SPFResult:
+						recSPF++
+					case *authres.DKIMResult:
+						recDKIM++
 					}
 				}
+				recParsed = true
 			} else {
 				out.Stat("reply.recorded-results-unparsable")
 			}
@@ -424,9 +490,9 @@ func c07Reply(out *vh.Out, c *vdmarc.Case, seedOK bool) {
 			switch {
 			case bodyErr != nil:
 				bad = got
-			case flagged && !c.PriorQ:
+			case flagged && !c.EarlierQ():
 				bad = "quarantine"
-			case !flagged && c.PriorQ:
+			case !flagged && c.EarlierQ():
 				out.Violation("C07/earlier-quarantine-lost", op, "message flagged by an earlier check arrives unflagged")
 			}
 		}
@@ -437,7 +503,44 @@ func c07Reply(out *vh.Out, c *vdmarc.Case, seedOK bool) {
 	if e.CheckPass && verdict != "" && (verdict == "pass") != e.Pass {
 		out.Violation("C07/recorded-verdict-wrong", op, fmt.Sprintf("Authentication-Results says dmarc=%s; expected pass=%v: %s", verdict, e.Pass, e.Why))
 	}
+	if recParsed {
+		// every SPF/DKIM verdict a check reported is in the trace header next to the DMARC verdict
+		nSPF, nDKIM := 0, 0
+		for _, r := range c.Res {
+			switch {
+			case r.Kind == 's', r.Kind == 'o' && r.Other == 6: // 6: a generic result of method "spf" reads back as an SPF result
+				nSPF++
+			case r.Kind == 'd', r.Kind == 'o' && r.Other == 5:
+				nDKIM++
+			}
+		}
+		if recSPF != nSPF || recDKIM != nDKIM {
+			out.Stat("reply.recorded-results-differ-from-reported")
+		}
+	}
 	out.Stat("reply." + strings.ReplaceAll(obs, " ", "_"))
+	if c.Wraps != nil {
+		for k, w := range c.Wraps {
+			if w == "-" || (c.Blocks != nil && c.Blocks[k] < 0) {
+				continue
+			}
+			out.Stat("reply.check.stage." + string(vdmarc.WrapStage(w)))
+			switch {
+			case vdmarc.WrapHas(w, 'i'):
+				out.Stat("reply.check.reason-without-action")
+			case vdmarc.WrapHas(w, 'q'):
+				out.Stat("reply.check.own-action-quarantine")
+			default:
+				out.Stat("reply.check.bare")
+			}
+			if vdmarc.WrapHas(w, 'h') {
+				out.Stat("reply.check.adds-header-fields")
+			}
+			if vdmarc.WrapHas(w, 'd') {
+				out.Stat("reply.check.referenced-by-later-blocks-too")
+			}
+		}
+	}
 	if c.Blocks != nil {
 		nb, maxStage := 0, 0
 		for _, n := range c.Blocks {
@@ -487,12 +590,20 @@ func TestVerifC07Reply(t *testing.T) {
 	for _, c := range vdmarc.TimedCorpus() {
 		c07Reply(out, c, seedOK)
 	}
+	for _, c := range vdmarc.WrapCorpus() {
+		c07Reply(out, c, seedOK)
+	}
 	n := vh.N(20000) / 4
 	for i := 0; i < n; i++ {
 		c := vdmarc.Random(r)
 		if i%2 == 1 {
 			// several check blocks, the resolver on virtual time
 			vdmarc.AddTiming(r, c)
+		}
+		if i%5 != 0 {
+			// the checks hand their results over the way the stock checks do: at other stages, with a
+			// reason and no action of their own, with an action of their own, with header fields
+			vdmarc.AddWraps(r, c)
 		}
 		c07Reply(out, c, seedOK)
 	}
